@@ -144,6 +144,8 @@ impl GseDecapMemory for SimpleGseMemory {
                 if context.frag_id == frag_id {
                     Ok((context, pdu))
                 } else {
+                    // the slot belongs to another frag id: leave it untouched
+                    self.frags[idx] = Some((context, pdu));
                     Err(DecapMemoryError::UndefinedId)
                 }
             }
